@@ -380,6 +380,10 @@ func (r *Report) finish(verifDir string, known []KnownFinding, start time.Time, 
 			allEx = false
 		}
 	}
+	if assumptions == nil {
+		assumptions = []string{}
+	}
+	assumptions = append(assumptions, "the check decides only the structural clauses named in coverage.explanation; it does not observe any execution")
 	ev := map[string]any{
 		"property_id": r.Prop,
 		"tier":        r.Tier,
